@@ -136,6 +136,7 @@ type videoParams struct {
 	vp9Profile uint8
 	vp9Range   bool
 	vp9SubX    bool // profile 1: 4:4:4 if false
+	vp9Depth   uint8
 	// AV1
 	seqHdr []byte
 	desc   string
@@ -181,15 +182,29 @@ func videoParamVariant(codec string, k int) *videoParams {
 		p.pps = []byte{0x68, 0xce, 0x38, byte(0x80 | (k/len(dims))&0x3f)}
 	case "h265":
 		p.sps = h265SPSs[k%len(h265SPSs)]
+		// further variants: the same parameter sets with general_tier_flag = 1 (High tier) or
+		// general_profile_space = 1 (byte 3 of the NAL unit: profile_space(2) tier(1) profile_idc(5))
+		switch (k / len(h265SPSs)) % 4 {
+		case 1:
+			p.sps = append([]byte(nil), p.sps...)
+			p.sps[3] |= 0x20
+		case 3:
+			p.sps = append([]byte(nil), p.sps...)
+			p.sps[3] |= 0x40
+		}
 		p.pps = h265PPS
 		p.vps = []byte{0x40, 0x01, 0x0c, 0x01, 0xff, 0xff, byte(0x10 + (k/len(h265SPSs))%8), 0x60}
 	case "vp9":
 		dims := [][2]int{{1920, 1080}, {1280, 720}, {640, 360}, {320, 180}}
 		d := dims[k%len(dims)]
 		p.vp9W, p.vp9H = d[0], d[1]
-		p.vp9Profile = uint8((k / 4) % 2)
-		p.vp9Range = (k/8)%2 == 1
+		p.vp9Profile = uint8((k / 4) % 3) // 0: 8 bit 4:2:0, 1: 8 bit 4:2:2, 2: 10 bit 4:2:0
+		p.vp9Range = (k/12)%2 == 1
 		p.vp9SubX = true
+		p.vp9Depth = 8
+		if p.vp9Profile == 2 {
+			p.vp9Depth = 10
+		}
 	case "av1":
 		p.seqHdr = av1SeqHdrs[k%len(av1SeqHdrs)]
 	}
@@ -198,7 +213,7 @@ func videoParamVariant(codec string, k int) *videoParams {
 
 func (p *videoParams) equal(q *videoParams) bool {
 	return string(p.sps) == string(q.sps) && string(p.pps) == string(q.pps) && string(p.vps) == string(q.vps) &&
-		p.vp9W == q.vp9W && p.vp9H == q.vp9H && p.vp9Profile == q.vp9Profile && p.vp9Range == q.vp9Range &&
+		p.vp9W == q.vp9W && p.vp9H == q.vp9H && p.vp9Profile == q.vp9Profile && p.vp9Range == q.vp9Range && p.vp9Depth == q.vp9Depth &&
 		string(p.seqHdr) == string(q.seqHdr)
 }
 
@@ -210,8 +225,12 @@ func newVideoTrack(codec string, p *videoParams) *gohlslib.Track {
 	case "h265":
 		t.Codec = &codecs.H265{VPS: p.vps, SPS: p.sps, PPS: p.pps}
 	case "vp9":
-		t.Codec = &codecs.VP9{Width: p.vp9W, Height: p.vp9H, Profile: p.vp9Profile, BitDepth: 8,
-			ChromaSubsampling: 1, ColorRange: p.vp9Range}
+		sub := uint8(1)
+		if p.vp9Profile == 1 {
+			sub = 2
+		}
+		t.Codec = &codecs.VP9{Width: p.vp9W, Height: p.vp9H, Profile: p.vp9Profile, BitDepth: p.vp9Depth,
+			ChromaSubsampling: sub, ColorRange: p.vp9Range}
 	case "av1":
 		t.Codec = &codecs.AV1{SequenceHeader: p.seqHdr}
 	}
@@ -236,6 +255,9 @@ func vp9Frame(p *videoParams, key bool, payload []byte) []byte {
 		w.bits(0x49, 8)
 		w.bits(0x83, 8)
 		w.bits(0x42, 8)
+		if p.vp9Profile >= 2 {
+			w.bits(0, 1) // ten_or_twelve_bit: 10 bit
+		}
 		w.bits(2, 3) // color space BT.709
 		if p.vp9Range {
 			w.bits(1, 1)
